@@ -14,3 +14,4 @@ import Stingray.Props.C07
 import Stingray.Props.C11
 import Stingray.Props.C12
 import Stingray.Props.C08
+import Stingray.Props.C15
